@@ -153,6 +153,14 @@ BUILTINS = ["HaltonSampler", "RandomUniformSampler", "RSequenceSampler", "BestBa
 
 
 def gen_builtin_scn(rng, extreme=False) -> ch.Scn:
+    if extreme == "tiny":
+        # a search space of 3 or 9 points that the run exhausts: the de-duplication redraws give up and batches contain repeats
+        dims = rng.choice([1, 2])
+        lineup = [("HaltonSampler", rng.randint(2, 4), None, None)] + [(rng.choice(["RandomUniformSampler", "HaltonSampler", "RSequenceSampler"]), rng.randint(2, 4), None, None)
+                                                                    for _ in range(rng.randint(1, 2))]
+        return ch.Scn(ensemble=rng.randint(1, 2), simlen=dims + 3, dims=dims, seed=rng.randrange(10 ** 5), lineup=lineup, verbose=rng.random() < 0.5,
+                      bounds=(tuple(0.0 for _ in range(dims)), tuple(1.0 for _ in range(dims))), precision=tuple(0.5 for _ in range(dims)),
+                      loss_fn=rng.choice(["sum", "dist"]), ops=[("C", rng.randint(1, 3)) for _ in range(rng.randint(3, 4))])
     dims = rng.choice([1, 2, 2, 3])
     names = ["HaltonSampler"] + [rng.choice(BUILTINS) for _ in range(rng.randint(1, 4))]
     if extreme:
@@ -211,7 +219,8 @@ def run(chk: Check):
     # built-in samplers (recorded outputs), incl. the XGBoost float32-overflow case
     nb_runs = 10 if chk.tier == "quick" else 150
     for i in range(nb_runs):
-        scn = gen_builtin_scn(rng, extreme=("inf" if i % 3 == 1 else True) if i % 3 != 2 else False)
+        scn = gen_builtin_scn(rng, extreme="tiny" if i % 4 == 3 else ("inf" if i % 3 == 1 else True) if i % 3 != 2 else False)
+        chk.count("builtin:" + ("tiny_space" if i % 4 == 3 else "other"))
         lines, info, errs = run_with_oracle(chk, scn, "builtin")
         chk.case(scn_json(scn), True, {"lineup": [c for c, *_ in scn.lineup], "loss_fn": scn.loss_fn, "ops": scn.ops})
         chk.count("builtin_lineups"); chk.count("losses:" + str(scn.loss_fn))
